@@ -178,6 +178,33 @@ pub fn hll_roundtrip(ctx: &Ctx, s: &HllSketch, mk: &dyn Fn() -> Value) {
             return;
         }
     }
+    // long differential drive: the restored sketch and the original must stay identical through
+    // the promotions still ahead (list -> set -> array, set growth, cur_min shifts); this also
+    // observes fields the dump does not show (container capacities)
+    {
+        let len: u64 = if st.mode < 2 { ((1u64 << st.lg_k.max(8)) / 8 + 40).min(240) } else if st.lg_k <= 6 { 8 << st.lg_k } else { 64 };
+        let mut a = s.clone();
+        let mut b = d.clone();
+        for i in 0..len {
+            let c = crate::c03::value_coupon(0x5eed_0000 + i);
+            let ra = catch(|| a.verif_update_with_coupon(c));
+            let rb = catch(|| b.verif_update_with_coupon(c));
+            if ra.is_err() || rb.is_err() {
+                if ra.is_err() != rb.is_err() {
+                    ctx.violation(&format!("hll{t}.roundtrip.continuation_panics.mode{}", st.mode), &format!("long drive step {i}: original panicked={} restored panicked={}", ra.is_err(), rb.is_err()), with_image(mk, &img));
+                }
+                return;
+            }
+            if (i & 15 == 15 || i + 1 == len) && (hll_obs(&a) != hll_obs(&b) || !hllm::same_content(&a.verif_state(), &b.verif_state(), true)) {
+                ctx.violation(
+                    &format!("hll{t}.roundtrip.long_continuation.mode{}", st.mode),
+                    &format!("after {} more coupons the restored sketch differs from the original (estimate {} vs {})", i + 1, b.estimate(), a.estimate()),
+                    with_image(mk, &img),
+                );
+                return;
+            }
+        }
+    }
     // merge equivalence: union(x, d) == union(x, s) for a few partners
     for lg_max in [st.lg_k, st.lg_k.saturating_sub(1).max(4), (st.lg_k + 2).min(21)] {
         for partner in 0..2 {
@@ -595,6 +622,32 @@ pub fn cpc_roundtrip(ctx: &Ctx, s: &CpcSketch, refm: &cpcm::RefCpc, mk: &dyn Fn(
             return;
         }
     }
+    // long differential drive through the flavor changes / window moves still ahead (public
+    // update of hashed items; stops at the model's coupon cap)
+    {
+        let len: u64 = if st.lg_k <= 6 { 12 << st.lg_k } else { 160 };
+        let cap = cpcm::max_coupons(st.lg_k) as u64;
+        let mut a = s.clone();
+        let mut b = d.clone();
+        for i in 0..len {
+            if a.num_coupons() as u64 + 1 >= cap {
+                break;
+            }
+            let item = 0x5eed_0000u64 + i;
+            let ra = catch(|| a.update(item));
+            let rb = catch(|| b.update(item));
+            if ra.is_err() || rb.is_err() {
+                if ra.is_err() != rb.is_err() {
+                    ctx.violation(&format!("cpc.roundtrip.continuation_panics.{fl}"), &format!("long drive step {i}: original panicked={} restored panicked={}", ra.is_err(), rb.is_err()), with_image(mk, &img));
+                }
+                return;
+            }
+            if (i & 31 == 31 || i + 1 == len) && (cpc_obs(&a) != cpc_obs(&b) || a.verif_bit_matrix() != b.verif_bit_matrix() || (!st.merge_flag && a.verif_state().kxp.to_bits() != b.verif_state().kxp.to_bits())) {
+                ctx.violation(&format!("cpc.roundtrip.long_continuation.{fl}"), &format!("after {} more items the restored sketch differs from the original (estimate {} vs {}, coupons {} vs {})", i + 1, b.estimate(), a.estimate(), b.num_coupons(), a.num_coupons()), with_image(mk, &img));
+                return;
+            }
+        }
+    }
     // merge equivalence
     for lgu in [st.lg_k, st.lg_k.saturating_sub(1).max(4), (st.lg_k + 1).min(26)] {
         let mut ua = CpcUnion::new(lgu);
@@ -880,6 +933,41 @@ pub fn fi_roundtrip(ctx: &Ctx, p: &crate::c07::State, mk: &dyn Fn() -> Value) {
         if aa.total_weight() != bb.total_weight() || aa.upper_bound(&x) < p.truth.get(&x).copied().unwrap_or(0) + c || bb.upper_bound(&x) < p.truth.get(&x).copied().unwrap_or(0) + c || bb.lower_bound(&x) > p.truth.get(&x).copied().unwrap_or(0) + c {
             ctx.violation("fi.roundtrip.continuation", &format!("after update({x},{c}) the restored sketch no longer brackets the truth or has a different total weight"), with_image(mk, &img));
             return;
+        }
+    }
+    // long drive on both: enough distinct items for map growth and purges; both must keep
+    // bracketing the exact counts (the C07 oracle applied to the restored sketch)
+    {
+        let mut aa = s.clone();
+        let mut bb = d.clone();
+        let mut truth = p.truth.clone();
+        let n = (2 * s.maximum_map_capacity() + 8).min(300);
+        let r = catch(|| {
+            for i in 0..n {
+                let x = 10_000 + (i % (n / 2 + 1)) as i64;
+                let c = 1 + (i as u64 % 3);
+                aa.update_with_count(x, c);
+                bb.update_with_count(x, c);
+                *truth.entry(x).or_insert(0) += c;
+            }
+        });
+        if let Err(pi) = r {
+            ctx.violation(&format!("panic|{}", pi.site_key()), &format!("FI long continuation panicked: {}", pi.message), with_image(mk, &img));
+            return;
+        }
+        let tw: u64 = truth.values().sum();
+        if aa.total_weight() != bb.total_weight() || bb.total_weight() != tw {
+            ctx.violation("fi.roundtrip.long_continuation", &format!("after {n} more updates total_weight is {} (restored) / {} (original), exact {tw}", bb.total_weight(), aa.total_weight()), with_image(mk, &img));
+            return;
+        }
+        for (x, &tv) in truth.iter() {
+            for (who, sk) in [("original", &aa), ("restored", &bb)] {
+                let (lb, ub) = (sk.lower_bound(x), sk.upper_bound(x));
+                if lb > tv || ub < tv || ub - lb > sk.maximum_error() {
+                    ctx.violation("fi.roundtrip.long_continuation", &format!("after {n} more updates the {who} sketch reports [{lb},{ub}] (max_error {}) for item {x} with exact count {tv}", sk.maximum_error()), with_image(mk, &img));
+                    return;
+                }
+            }
         }
     }
     let mut ma = FrequentItemsSketch::<i64>::new(p.size);
